@@ -20,17 +20,19 @@ Open Scope Z_scope.
    integer ranges involved (|values| < 2^63, divisors < 2^63) and are not modelled. *)
 Notation fl := (Z * Z)%type.
 
+(* quotient of n*2^s by d (s may be negative), rounded to nearest, ties to even *)
+Definition rnd_qr (q r den : Z) : Z :=
+  if (den <? 2 * r) || ((2 * r =? den) && Z.odd q) then q + 1 else q.
+Definition scaled_div (n d s : Z) : Z * Z * Z :=
+  let den := Z.shiftl d (Z.max (- s) 0) in
+  let '(q, r) := Z.div_eucl (Z.shiftl n (Z.max s 0)) den in (q, r, den).
 Definition rne_pos (n d : Z) : fl :=
   if n =? 0 then (0, 0) else
   let s0 := 52 - (Z.log2 n - Z.log2 d) in
-  let q0 := (n * 2 ^ (Z.max s0 0)) / (d * 2 ^ (Z.max (- s0) 0)) in
-  let s := if q0 <? 2 ^ 52 then s0 + 1 else s0 in
-  let num := n * 2 ^ (Z.max s 0) in
-  let den := d * 2 ^ (Z.max (- s) 0) in
-  let q := num / den in
-  let r := num mod den in
-  let q' := if (den <? 2 * r) || ((2 * r =? den) && Z.odd q) then q + 1 else q in
-  (q', - s).
+  let '(q0, r0, den0) := scaled_div n d s0 in
+  if q0 <? 4503599627370496 (* 2^52 *) then
+    let '(q, r, den) := scaled_div n d (s0 + 1) in (rnd_qr q r den, - (s0 + 1))
+  else (rnd_qr q0 r0 den0, - s0).
 
 (* nearest double to n/d, d > 0 *)
 Definition rne (n d : Z) : fl :=
@@ -45,9 +47,9 @@ Definition f_mul (a b : fl) : fl :=
   let '(m, e) := rne (ma * mb) 1 in (m, e + ea + eb).
 (* Go's int64(f): truncation toward zero *)
 Definition f_trunc (a : fl) : Z :=
-  let '(m, e) := a in if 0 <=? e then m * 2 ^ e else Z.quot m (2 ^ (- e)).
+  let '(m, e) := a in if 0 <=? e then Z.shiftl m e else Z.quot m (Z.shiftl 1 (- e)).
 Definition f_ceil (a : fl) : Z :=
-  let '(m, e) := a in if 0 <=? e then m * 2 ^ e else - ((- m) / 2 ^ (- e)).
+  let '(m, e) := a in if 0 <=? e then Z.shiftl m e else - ((- m) / Z.shiftl 1 (- e)).
 
 (* float64(p) / 100 *)
 Definition f_pct (p : Z) : fl := f_div (f_of_int p) (f_of_int 100).
